@@ -15,8 +15,8 @@ KF_E_P_INVERSION = 1701
 def predicted_cycles(lock_log):
     """lock_log: [(thread, held tuple, acquired)] of one path -> list of (edge_a, edge_b) cycles found by z3"""
     # thread 'main' is the harness itself building the topology (not a platform thread role)
-    # roles T3 (executes <send>), T6 (cancels a child) and T8 (executes <invoke>) are all the thread of session 1: they cannot wait for each other
-    same = {'T3': 'S1', 'T6': 'S1', 'T8': 'S1'}
+    # roles T3 (executes <send>), T6 (cancels a child), T8 (executes <invoke>) and T9 (terminates with children) are all the thread of session 1: they cannot wait for each other
+    same = {'T3': 'S1', 'T6': 'S1', 'T8': 'S1', 'T9': 'S1'}
     edges = [(same.get(t, t), frozenset(h), a) for t, h, a in lock_log if h and t != 'main']
     if not edges:
         return [], 0
@@ -68,7 +68,7 @@ def run(c):
     ]
     c.outside += ['deadlock freedom of all schedules: only order inversions among the explored role paths are predicted', 'BasicHTTP processor threads, tracer', 'more than one executor']
     r = c.run_m('h_c17_scenario', expect_checks=(1701,), expect_cover=(1701,), env={'collect_locks': True}, diff_samples=1,
-                bounds={'roles': 8, 'send target': "'' #_internal #_scxml_<id> #_parent #_<invokeid>"})
+                bounds={'roles': 9, 'send target': "'' #_internal #_scxml_<id> #_parent #_<invokeid>"})
     cycles = {}
     nq = 0
     nedges = 0
